@@ -34,6 +34,7 @@ def run(tier):
         H.freenull(prog, rep)
         H.cookie_init(prog, rep, L)
         H.eol_scan(prog, rep)
+        H.chunk_framing(prog, rep)     # "never aborts": a consume of more than the line and its CRLF trips the reader's assertion
         H.borrow_rule(prog, rep)       # nothing of the caller's request description is read after http_request() returns, except the body
         from . import c07, c14
         c07.orphan_rule(prog, rep)     # "leaks nothing": the request's writer must not orphan a queued buffer
@@ -42,7 +43,7 @@ def run(tier):
         # (acquisitions tested before use, released on every failure path, realloc never over its argument; rules shared with C14)
         wprog = ir.Program(None, cfg)
         c14.leak_rules(wprog, rep, only_files=ANCHORED)
-        c14.double_free_rule(wprog, rep, only_files=tuple(ANCHORED) + ("http/https.c",))
+        c14.double_free_rule(wprog, rep, only_files=tuple(ANCHORED) + ("http/https.c",), alloc_only=False)     # every path: "never reads outside its own (live) buffers"
         c14.realloc_nonzero_rule(wprog, rep, only_files=ANCHORED)
         # "never aborts, never reads or writes outside its buffers": the reader's window invariant and launch preconditions (shared with C07)
         c07.reader_window(wprog, rep)
@@ -50,6 +51,7 @@ def run(tier):
         from . import c06
         c06.closed_fd_rule(wprog, rep)
         c06.close_registered_rule(wprog, rep)
+        c06.borrow_ref_rule(wprog, rep, list(ANCHORED))
         # a completed operation's handle is dropped before the failure path can cancel through it (shared with C06/C07)
         if c06.handle_clear_rule(wprog, rep, list(ANCHORED)) < 5:
             raise cdb.AnalysisBroken("SLOT: fewer than 5 (handle field, completion callback) pairs found in the anchored units")
